@@ -4,6 +4,7 @@ CONSTANTS
   K = 2
   M = 0
   Variant = "as_coded"
+  Direct = FALSE
   GenHist = TRUE
 INVARIANT Emit
 CHECK_DEADLOCK FALSE
